@@ -567,6 +567,24 @@ fn exec(it: &mut Interp, t: &[&str]) -> Result<String, String> {
             need(8)?;
             alloc_common(it, t, None)
         }
+        "rawalloc" => {
+            // EXTENSION (C08): `rawalloc m size sem` = `memory_manager::alloc` WITHOUT object initialisation and WITHOUT
+            // `post_alloc`: the state a conservative scanner sees between the two calls (memory handed out, no VO bit,
+            // LOS: not on the treadmill). The region is never turned into an object (it is leaked).
+            need(3)?;
+            let m = unum(t[1]);
+            let size = unum(t[2]);
+            let sem = sem_of(t[3]).ok_or("err bad-semantics")?;
+            if size == 0 || size > u32::MAX as usize {
+                return Err("err bad-size".into());
+            }
+            let mu = mutator(m)?;
+            let addr = mm::alloc(mu, size, 8, 0, sem);
+            if addr.is_zero() {
+                return Ok(format!("null gcs={}", rt::gcs()));
+            }
+            Ok(format!("raw={:#x} sz={} space={} gcs={}", addr.as_usize(), size, vg::acc::sft_name(addr), rt::gcs()))
+        }
         "alloco" => {
             need(11)?;
             let o = AllocationOptions {
